@@ -40,6 +40,11 @@ class Handler:
                     self.delegates.append(n.func.attr)
                 else:
                     self.helper_calls.append((n.func.attr, [norm(a) for a in n.args]))
+            if isinstance(n, ast.For) and isinstance(n.iter, ast.Attribute) and isinstance(n.iter.value, ast.Name) and isinstance(n.target, ast.Name):
+                # for child in node.field: self.visit(child)
+                if any(isinstance(c, ast.Call) and isinstance(c.func, ast.Attribute) and isinstance(c.func.value, ast.Name) and c.func.value.id == "self"
+                       and c.func.attr == "visit" and c.args and isinstance(c.args[0], ast.Name) and c.args[0].id == n.target.id for c in ast.walk(n)):
+                    self.traverse_fields.add(n.iter.attr)
             if isinstance(n, ast.Call) and isinstance(n.func, ast.Attribute) and n.func.attr == "add" and isinstance(n.func.value, ast.Attribute) \
                     and isinstance(n.func.value.value, ast.Name) and n.func.value.value.id == "self" and n.args:
                 self.adds.append((n.func.value.attr, norm(n.args[0]), self._guards(n)))
